@@ -15,7 +15,7 @@ RANGE = {"u8": (0, 255), "u16": (0, 65535), "u32": (0, 2**32 - 1), "u64": (0, 2*
          "int": (-2**64, 2**64 - 1)}
 RULE = ("dec <accessor> <head ++ suffix>: (sign, width, argument) triples: every argument < 2^16 that fits at each of the five widths "
         "(quick: stride-sampled above 2^10 plus all boundaries), every 2^k±3, seeded random 64-bit arguments; x the 8 integer accessors, int, char, "
-        "datatype; suffixes: none, one byte <0x80, one byte >=0x80 (the type_of peek).  Oracle evaluated in the orchestrator: ok iff the mathematical "
+        "datatype; suffixes: none, one byte <0x80, one byte >=0x80 (the type_of peek), and 9..12 byte continuations.  Oracle evaluated in the orchestrator: ok iff the mathematical "
         "value is in the Rust type's range, value equal, position = head length.  Non-trivial: implementation returned ok or an overflow error.")
 ASSUMPTIONS = ["usize/isize/NonZero impls are covered by C01/C04 streams (they delegate to these accessors)"]
 
@@ -54,6 +54,9 @@ def canon(op, line):
     return line
 
 
+BOUND = set(gen.boundaries(64))
+
+
 def streams(rng, tier):
     triples = []
     small = range(0, 65536) if tier == "thorough" else list(range(0, 1024)) + list(range(1024, 65536, 37))
@@ -71,12 +74,17 @@ def streams(rng, tier):
                     triples.append((neg, width, n))
     ops = []
     sufs = ["", "05", "80"]
+    # long continuations: whatever an accessor does when plenty of input follows (a wide load, a look-ahead) must not show in value or position
+    longs = ["0102030405060708090a0b0c", "ff" * 9, "1b" + "ff" * 8 + "00", "3a000100000102030405"]
     for (neg, width, n) in triples:
         hd = gen.head(neg, n, width).hex()
         accs = ACCS if (n < 70000 or rng.random() < 0.5) else rng.sample(ACCS, 4)
         for acc in accs:
             suf = sufs[(n + len(acc)) % 3]
             ops.append(f"dec {acc} {hd}{suf} #:{neg},{width},{n}")
+        if n < 300 or n in BOUND or rng.random() < 0.1:
+            for acc in accs:
+                ops.append(f"dec {acc} {hd}{longs[(n + len(acc)) % 4]} #:{neg},{width},{n}")
     # datatype: reported type must name an accessor that accepts the item
     dt_ops = []
     for (neg, width, n) in triples[::5]:
